@@ -57,6 +57,11 @@ def gen_cases(tier, seed):
             cases.append({"id": "XN/%d/%d" % (seed, i), "src": "refpq", "recipe": rec, "nested_first": nested, "oseed": int(rng.integers(0, 2 ** 31))})
     except ImportError:
         pass
+    # a dataset of another writer (created_by says so) whose pandas metadata calls a column categorical, dictionary-encoded in some row
+    # groups and PLAIN in others (what parquet-cpp writes once a dictionary has grown too large)
+    for i, plain_in in enumerate([(1,), (0,), (2,), (1, 2), ()]):
+        cases.append({"id": "FC/%d" % i, "src": "fc", "plain_in": list(plain_in), "oseed": 40 + i})
+        cases.append({"id": "FC/%d/no_created_by" % i, "src": "fc", "plain_in": list(plain_in), "oseed": 50 + i, "no_created_by": True})    # (the field is optional)
     return cases
 
 
@@ -106,6 +111,27 @@ def run_case(case):
                     res["outcome"] = "rejected"
                     counters["write_rejected"] = 1
                     return res
+        elif case["src"] == "fc":
+            import os
+            from fastparquet import writer as FW_
+            path = C.fresh_path("")
+            os.makedirs(path)
+            cleanup = True
+            parts = []
+            for j in range(3):
+                labels = ["a", "b", "c"]
+                vals = [labels[(j + x) % 3] for x in range(6)]
+                k_ = np.array(vals, dtype=object) if j in case["plain_in"] else pd.Categorical(vals, categories=labels)
+                pj = os.path.join(path, "part.%d.parquet" % j)
+                fastparquet.write(pj, pd.DataFrame({"k": k_, "v": np.arange(6 * j, 6 * j + 6, dtype="int64")}), object_encoding={"k": "utf8", "v": "infer"}, stats=False)
+                parts.append(pj)
+            order = [p_ for j_, p_ in enumerate(parts) if j_ not in case["plain_in"]] + [p_ for j_, p_ in enumerate(parts) if j_ in case["plain_in"]]
+            if 0 in case["plain_in"]:
+                order = parts       # the PLAIN one first: its pandas metadata does not call the column categorical
+            pfm = FW_.merge(order, verify_schema=False)
+            pfm.fmd.created_by = None if case.get("no_created_by") else b"parquet-cpp-arrow version 14.0.2"
+            pfm._write_common_metadata()
+            counters["foreign_datasets_with_partly_dictionary_encoded_categoricals"] = 1
         elif case["src"] == "refpq":
             from vf.gen import recipes as RC
             path = C.fresh_path(".parq")
@@ -138,6 +164,12 @@ def run_case(case):
             try:
                 pf = fastparquet.ParquetFile(path, pandas_nulls=pandas_nulls)
             except Exception as e:
+                if case["src"] in ("fc", "refpq"):
+                    # a dataset built here to be valid: no handle, no answers at all
+                    res["failures"].append({"kind": "valid_dataset_cannot_be_opened", "src": case["src"], "pandas_nulls": pandas_nulls, **C.exc_shape(e)})
+                    res["outcome"] = "ok"
+                    res["nontrivial"] = True
+                    return res
                 res["outcome"] = "skip"
                 counters["open_failed"] = 1
                 res["reject"] = C.exc_shape(e)
@@ -283,7 +315,9 @@ def run_case(case):
                             res["failures"].append({"kind": "row_group_rows_prediction", "predicted": pred_rg, "got": [len(p_) for p_ in parts], **ctx})
                         for pi, part in enumerate(parts):
                             for c in part.columns:
-                                if str(c) in pred_dt and not _dtype_matches(pred_dt[str(c)], part.dtypes[c]):
+                                # (a dataset whose row groups encode a column differently - src "fc" - legitimately yields parts of differing dtype
+                                #  through the derived handles; the statement asks for per-row-group COUNTS, the dtype is that of the full read)
+                                if case["src"] != "fc" and str(c) in pred_dt and not _dtype_matches(pred_dt[str(c)], part.dtypes[c]):
                                     res["failures"].append({"kind": "dtype_prediction_row_group", "column": str(c), "part": pi, "predicted": str(pred_dt[str(c)]),
                                                             "got": str(part.dtypes[c]), **ctx})
                         counters["row_group_parts_predicted"] = counters.get("row_group_parts_predicted", 0) + len(parts)
@@ -425,4 +459,4 @@ def _edited_handle(path, df, res, counters):
 
 
 def required(tier):
-    return {"optionsets_compared": 1500, "dtype_predictions": 5000, "pandas_nulls_false_compared": 500, "row_group_parts_predicted": 300, "reads_with_dtypes_mapping": 200, "edited_handle_steps_compared": 150, "files_with_nested_columns_before_flat_ones": 15, "edited_handle_appends_with_new_categories": 15, "edited_handle_appends_bringing_first_nulls": 5}
+    return {"optionsets_compared": 1500, "dtype_predictions": 5000, "pandas_nulls_false_compared": 500, "row_group_parts_predicted": 300, "reads_with_dtypes_mapping": 200, "edited_handle_steps_compared": 150, "files_with_nested_columns_before_flat_ones": 15, "edited_handle_appends_with_new_categories": 15, "edited_handle_appends_bringing_first_nulls": 5, "foreign_datasets_with_partly_dictionary_encoded_categoricals": 8}
